@@ -122,6 +122,10 @@ def build_scaled_file(case, data, variant=0, with_zero_channel=True):
                         {"p": C, "kind": "full", "props": level_props(case, "channel")}],
              "objs": [{"p": "/", "has": False, "n": 0, "ty": None}, {"p": G, "has": False, "n": 0, "ty": None},
                       {"p": C, "has": True, "n": h, "ty": ty}]}
+    if (variant // 4) % 2 == 1:
+        # the channel is declared before its group (and the root last): object order must not matter for the lookup
+        first["listed"] = [first["listed"][2], first["listed"][1], first["listed"][0]]
+        first["objs"] = [first["objs"][2], first["objs"][1], first["objs"][0]]
     if with_zero_channel:
         first["listed"].append({"p": Z, "kind": "full", "props": level_props(case, "channel")})
         first["objs"].append({"p": Z, "has": True, "n": 0, "ty": ty})
@@ -169,7 +173,7 @@ def replay_scaling_case(case):
     exp = rec["expect"]
     seed = case["seed"]
     h = zlib.crc32(repr(c).encode())
-    variant = (h + seed) % 4
+    variant = (h + seed) % 8
     fd = build_scaled_file(c, rec["data"], variant, with_zero_channel=False)
     e = encode_with_values(fd, seed)
     fails = []
@@ -339,10 +343,24 @@ def replay_dtype_plain_case(case):
     if not rec["file"] or rec["status"] != "ok":
         return {"n": 0, "keys": [], "fails": [], "validated": 0}
     fd = to_fd(rec, seed)
-    e = enc.encode(fd, seed)
+    tys = _as_dict(rec["view"]["ty"])
+    if zlib.crc32(repr(rec["file"]).encode()) % 3 == 0 and "TimeStamp" in tys.values():
+        # whole-second timestamps: every fraction is zero
+        orig = enc.value
+
+        def whole_seconds(ty, p, k, seed=0, width=None, extra=0):
+            if ty == "TimeStamp":
+                return struct.pack("<Qq", 0, 3000000000 + 7 * k)
+            return orig(ty, p, k, seed, width, extra)
+        enc.value = whole_seconds
+        try:
+            e = enc.encode(fd, seed)
+        finally:
+            enc.value = orig
+    else:
+        e = enc.encode(fd, seed)
     fails = []
     n = 0
-    tys = _as_dict(rec["view"]["ty"])
     be = any(s["be"] for s in rec["file"])
     from .parser import components
     for rawts in (False, True):
